@@ -320,24 +320,22 @@ impl FieldParser {
         i: &[u8],
         template: T,
     ) -> IResult<&[u8], Vec<BTreeMap<usize, IPFixFieldPair>>> {
-        // If no fields there are no fields to parse, return an error.
-        let (remaining, mut fields, total_taken) =
-            template.get_fields().iter().enumerate().try_fold(
-                (i, vec![], 0usize),
-                |(remaining, mut fields, total_taken), (c, field)| {
-                    let mut data_field = BTreeMap::new();
-                    let (i, field_value) = field.parse_as_field_value(remaining)?;
-                    let taken = remaining.len().saturating_sub(i.len());
-                    data_field.insert(c, (field.field_type, field_value));
-                    fields.push(data_field);
-                    Ok((i, fields, total_taken.saturating_add(taken)))
-                },
-            )?;
-
-        if remaining.len() >= total_taken {
-            let (remaining, more) = Self::parse(remaining, template)?;
-            fields.extend(more);
-            return Ok((remaining, fields));
+        let mut fields = vec![];
+        let mut remaining = i;
+        loop {
+            let before = remaining.len();
+            for (c, field) in template.get_fields().iter().enumerate() {
+                let mut data_field = BTreeMap::new();
+                let (i, field_value) = field.parse_as_field_value(remaining)?;
+                data_field.insert(c, (field.field_type, field_value));
+                fields.push(data_field);
+                remaining = i;
+            }
+            // Another record follows only if at least as many bytes are left as this one took.
+            let taken = before.saturating_sub(remaining.len());
+            if taken == 0 || remaining.len() < taken {
+                break;
+            }
         }
 
         Ok((remaining, fields))
